@@ -210,6 +210,7 @@ def h(
     dim: Optional[int] = None,
     weights: Optional[ArrayLike] = None,
     dtype: Optional[DTypeLike] = None,
+    keep_missed: bool = True,
     **kwargs,
 ) -> HistogramND:
     """Facade function to create n-dimensional histograms.
@@ -231,6 +232,7 @@ def h(
         If weights are specified, default is float. Otherwise int64
     title: What will be displayed in the title of the plot
     dim: Dimension - necessary if you are creating an empty adaptive histogram
+    keep_missed: Whether to record the weight of the values outside the bins (default: True)
 
     Note: For most arguments, if a list is passed, its values are used as values for
     individual axes.
@@ -265,6 +267,7 @@ def h(
         axis_names=axis_names,
         name=name,
         title=title,
+        keep_missed=keep_missed,
     )
 
 
